@@ -57,6 +57,7 @@ ENERGY_V0 = ["generic", "stretch", "spin"]
 ENERGY_DT = [0.01, 0.2]
 ENERGY_STRESS = ["gonzalez", "quadrature"]
 ENERGY_TOL = 1e-8
+QUAD_ENERGY_TOL = 1e-10  # energyTol handed to the 'quadrature' stress
 SLOW_LAWS = ("HolzapfelOgden", "AutoDiff")
 
 
@@ -68,7 +69,6 @@ def energy_steps(tier, law, dt, stress):
     if law == "HolzapfelOgden" and stress == "quadrature" and dt == max(ENERGY_DT):
         return 40
     return 100 if law in SLOW_LAWS else 200
-QUAD_ENERGY_TOL = 1e-10
 
 
 # ------------------------------------------------------------------------------------------------
@@ -431,14 +431,17 @@ def describe(tier, seed):
             "1e-6 tolerance are counted as inconclusive, never as violations",
             "tolerance 1e-6 relative to (|S| + 1e-3 s0) |F| |grad du| (s0 = |D| at u = 0) for dW, to |D| |F| |grad du| for dS, to max|K_e| for tangents; "
             "1e-10 relative for objectivity; 1e-12 s0 for the reference state",
-            "admissible states: det F > 0 at every Gauss point (other states skipped and counted)",
+            f"admissible states: det F > {J_MIN} at every Gauss point of every state involved (u_n, u_t, u_n+1); other states are skipped and counted",
             "HolzapfelOgden: unit T1 perpendicular to unit T2; 2D: fibres in the plane, plus one case per element type with T1 raised 0.2 rad out of "
             "the plane (plane strain, C padded with C33 = 1); AutoDiff: jax float64 enabled (Enable_x64) before the law is built",
             "PenaltyContact: planar obstacle (the operator documents that curvature terms are dropped), gap bounded away from 0; "
             "FollowingPressure / PenaltyContact follow the documented slot convention K -> slot K, R -> slot F, i.e. K = -dR/du",
             "TimeQuadratureStressTensor with a tolerance: the tangent is compared only where all perturbed copies accepted the same rule",
             "energy: Newton tolerances absTol 1e-11, relTol 1e-14, incTol 1e-14, maxIter 25; a run whose Newton iteration does not converge "
-            "(or meets det F <= 0) is skipped and counted; quadrature uses energyTol = 1e-10 and its documented defect allowance is added",
+            "(or meets det F <= 0) is skipped and counted; quadrature uses energyTol = 1e-10, its documented defect allowance is added, and a run "
+            "that drifts after the rule reached its documented cap of 33 points is skipped and counted",
+            "path-quadrature rules: exactness for polynomial stress paths is demanded with Saint-Venant-Kirchhoff (K = 0: degree 1, rules 1/2/3; "
+            "K > 0: degree <= 5, rules 7/9)",
         ],
         "explanation": "Richardson differences of the implementation's own energy decide stress and tangent; difference quotients of the returned "
                        "residual decide the operator tangents; the discrete energy balance is observed over 20/200 real steps.",
@@ -1074,9 +1077,7 @@ def _run_energy(case):
             if capped and drift.max() > allow:
                 skipped = "quadrature reached its documented cap of 33 points"
     done = Es.size - 1 if Es.size else 0
-    if skipped and done >= 1 and not v:
-        # the steps completed before the failure still count as observed; the case is reported as skipped
-        pass
+    # steps completed before a Newton failure are still checked above; the case is then reported as skipped
     return {"violations": v, "fingerprint": fp("energy", law, case["mesh"], case["v0"], dt, case["stress"], Es[-1] if Es.size else 0.0, done),
             "nontrivial": exchanged > 1e-3, "transitions": done, "states": done,
             "outcome": "violation" if v else ("skipped" if skipped else "ok"), "skipped": skipped,
